@@ -7,7 +7,6 @@ package c15
 import (
 	"fmt"
 	"os"
-	"sort"
 	"strings"
 
 	"verif/harness/core"
@@ -291,7 +290,7 @@ func runCase(c *core.Ctx, slot int, stream string, idx int, p *prog, cfg dcfg, s
 
 // Run is the check.
 func Run(c *core.Ctx) {
-	c.Note("rule", "cases: (a) 'prog': seeded single-threaded ECAL programs (assignments, arithmetic, if/elif/else, range / guard / list / map loops with break/continue, functions with defaults, nested and recursive calls, try/except/otherwise/finally with raise and runtime errors, log, lists, maps; one statement per line) x 4 debugger configurations each: breakpoints {none, every line, random subsets incl. disabled ones, set/disable/remove/remove-all while running} x breakonstart x break-on-error {default, off} x command script over {resume, stepin, stepover, stepout} per suspended thread x command route {Continue(), HandleInput} x driver timing {immediate, settled, seeded delay} with seeded noise at the dbg.* hook points; (b) 'sink': programs with 2-3 sinks on 2-4 workers (events fired with addEvent / addEventAndWait, optional cascade; per-event output order independent, compared as sorted log) under the same configurations; (c) 'gate': a fixed matrix of directed gates dbg.beforewait -> dbg.broadcast over wait site {breakpoint, step, error} x position {top level, in call, nested call, loop, sink worker} x releasing command {resume, stepin, stepover, stepout, StopThreads} plus StopThreads with several threads. stepout is only issued inside a call (top level: C16). A case is non-trivial if the debugged run suspended at least once (a, b) or the gate held the thread and was opened by the partner's broadcast (c); distinct = distinct (program, configuration) pairs / scenarios")
+	c.Note("rule", "cases: (a) stream 'prog': seeded single-threaded ECAL programs (assignments, arithmetic, if/elif/else, range / guard / list / map loops with break/continue, functions with defaults, nested and recursive calls, try/except/otherwise/finally with raise and runtime errors, log, lists, maps; one statement per line), each under 4 debugger configurations drawn from: breakpoints {none, every line, random subsets incl. disabled ones, set/disable/remove/remove-all while running} x breakonstart x break-on-error {default, off} x command script over {resume, stepin, stepover, stepout} per suspended thread x command route {Continue(), HandleInput} x driver timing {immediate, settled, seeded delay}, with seeded noise at the dbg.* hook points; (b) stream 'sink': programs with 2-3 sinks on 2-4 workers (addEvent / addEventAndWait, optional cascade; per-event output order independent, compared as sorted log) under the same configurations; (c) stream 'gate': a fixed matrix of directed gates dbg.beforewait -> dbg.broadcast over wait site {breakpoint (incl. breakonstart), step, error} x position {first line, in call, nested call, after call, loop, sink worker} x releasing command {resume, stepin, stepover, stepout, StopThreads}, plus StopThreads with 3-4 threads (one held in the window / all really parked). stepout is only issued while the debugger reports a non-empty call stack (top level: C16). The race build runs a subset and decides only on race reports whose innermost frame is Set/Disable/RemoveBreakPoint. A case is non-trivial if the debugged run suspended at least once (a, b) or the gate held the thread and was opened by the partner's broadcast (c); distinct = distinct (program, configuration) pairs / scenarios")
 	if n := os.Getenv("VH_C15_DUMP"); n != "" {
 		dump(c, n)
 		return
@@ -316,12 +315,12 @@ func Run(c *core.Ctx) {
 	if v := os.Getenv("VH_C15_PAR"); v != "" {
 		fmt.Sscanf(v, "%d", &par)
 	}
-	nprog := c.Pick(1800, 90000)
-	nsink := c.Pick(400, 12000)
+	nprog := c.Pick(1800, 60000)
+	nsink := c.Pick(400, 8000)
 	if c.Race {
 		// the race build is an additional, slower scheduler; its reports about
 		// breakpoint changes racing with a running thread decide (race_rule)
-		nprog, nsink = c.Pick(200, 9000), c.Pick(40, 1200)
+		nprog, nsink = c.Pick(200, 6000), c.Pick(40, 800)
 	}
 	c.Parallel(par, "prog", nprog, func(slot, idx int) {
 		p := genProgram(c.Rng("prog-src", idx/cfgsPerProgram))
@@ -339,5 +338,4 @@ func Run(c *core.Ctx) {
 		set[s] = struct{}{}
 	}
 	c.Event("interleaving-signatures.distinct(sum over batches)", int64(len(set)))
-	_ = sort.Ints
 }
